@@ -227,4 +227,7 @@ pub fn run(ctx: &mut Ctx) {
         }
     });
     ctx.require(&r, &["unequal", "equal"]);
+    // hidden state: every ordered pair of operation calls on a fresh thread against the lone call (no model involved)
+    let hist_calls = crate::histpairs::calls_ops(!ctx.thorough(), &|op| matches!(op.sig().0, 0 | 2 | 5));
+    crate::histpairs::pairwise(ctx, "C17", "date_bearing_operations", hist_calls);
 }
